@@ -405,7 +405,7 @@ fn enum_seqs(alpha: &[u8], minlen: usize, maxlen: usize) -> Vec<Vec<u8>> {
 }
 
 pub fn gen(tier: &str, rng: &mut Rng, out: &mut Vec<String>) {
-    let n = if tier == "thorough" { 40_000 } else { 1_500 };
+    let n = if tier == "thorough" { 150_000 } else { 5_000 };
     for i in 0..n {
         match i % 10 {
             0 | 1 => linear_case(rng, out),
